@@ -582,6 +582,80 @@ example : Handler.validSl 2 (reqAxis 2 PSlice.all (Idx.sl ⟨some 1, none, some 
     Handler.validSl 5 ⟨some 3, some 2, some 1⟩ = false ∧ Handler.validSl 5 ⟨some 5, some 10, some 1⟩ = false := by
   decide
 
+/-- **(4) grids, every basic key, `output_grid` on and off, with or without URL hyperslab — one statement**: `grid[key]`
+    fetches the array, whose value is numpy's `array[pre][key]` (with `output_grid=False` that is the only request);
+    and for EVERY axis `j`, with `e` entry `j` of numpy's expansion of the key: either map `j` is fetched and its value is
+    numpy's `map_j[pre_j][e]` (integer entries keep the axis) — every axis the key reaches, all axes when the key has an
+    Ellipsis — or the key does not reach axis `j` (`e` is the full slice numpy pads with) and map `j` is not fetched: it
+    stays the proxy it was, carrying `pre_j` (reading it is `C02_remote_subsetting` on a rank-1 array).  So the maps are
+    sliced along the matching axes, never along another one. -/
+theorem C02_grid_subsetting (ty : Xdr.Ty) (shape : List Nat) (vals : List Xdr.Val)
+    (maps : List (Xdr.Ty × List Xdr.Val)) (pre : List PSlice) (key : List Idx)
+    (hw : E2E.WFArr ty shape vals) (hm : maps.length = shape.length)
+    (hwm : ∀ j (h1 : j < maps.length) (h2 : j < shape.length), E2E.WFArr maps[j].1 [shape[j]] maps[j].2)
+    (hpl : pre.length ≤ shape.length) (h1 : AtMostOneEll key) (hl : explicitAxes key ≤ shape.length)
+    (hv : ValidList shape (padPre pre shape.length) (npExpandIdx key shape.length)) :
+    (∃ cshape vs,
+      E2E.numpyIndex shape vals (padPre pre shape.length) (npExpandIdx key shape.length) = some (cshape, vs) ∧
+      (E2E.fetchGrid true ty shape vals maps pre key)[0]? = some (0, .ok (E2E.dataOf cshape vs, [])) ∧
+      E2E.fetchGrid false ty shape vals maps pre key = [(0, .ok (E2E.dataOf cshape vs, []))]) ∧
+    ∀ j, j < shape.length → ∃ n m p e, shape[j]? = some n ∧ maps[j]? = some m ∧
+      (padPre pre shape.length)[j]? = some p ∧ (npExpandIdx key shape.length)[j]? = some e ∧
+      ((∃ cs vs, E2E.numpyIndex [n] m.2 [p] [e] = some (cs, vs) ∧
+          (E2E.fetchGrid true ty shape vals maps pre key)[j + 1]? = some (j + 1, .ok (E2E.dataOf cs vs, []))) ∨
+       ((E2E.fetchGrid true ty shape vals maps pre key)[j + 1]? = none ∧ e = Idx.sl PSlice.all)) := by
+  have hlenv := validList_length hv
+  have hPl : (padPre pre shape.length).length = shape.length := padPre_length pre _ hpl
+  rcases basic_cases key h1 with ⟨h2, he, hne, hx⟩ | ⟨a, b, hs, he, ha, hb, hx⟩
+  · have hE : npExpandIdx key shape.length = npExpand key none shape.length := by
+      unfold npExpandIdx; rw [h2, ← he]
+    rw [hE] at hv hlenv ⊢
+    rw [hx] at hl
+    obtain ⟨hlen, ⟨cs, vs, hn, hf⟩, hmaps⟩ := C02_e2e_grid ty shape vals maps pre key hw hm hwm hpl hne hl hv
+    refine ⟨⟨cs, vs, hn, hf, ?_⟩, ?_⟩
+    · obtain ⟨cs', vs', hn', hf'⟩ := C02_e2e_grid_array_only ty shape vals maps pre key hw hpl hne hl hv
+      rw [hn] at hn'; cases hn'; exact hf'
+    · intro j hj
+      have hjm : j < maps.length := by omega
+      have hjE : j < (npExpand key none shape.length).length := by rw [hlenv.2]; exact hj
+      refine ⟨shape[j], maps[j], (padPre pre shape.length)[j]'(by omega), (npExpand key none shape.length)[j],
+        List.getElem?_eq_getElem hj, List.getElem?_eq_getElem hjm, List.getElem?_eq_getElem (by omega),
+        List.getElem?_eq_getElem hjE, ?_⟩
+      by_cases hjk : j < key.length
+      · left
+        have hEj : (npExpand key none shape.length)[j] = key[j] := by
+          simp [npExpand, List.getElem_append_left, hjk]
+        obtain ⟨cs', vs', hn', hf'⟩ := hmaps j hjk
+        rw [hEj]
+        exact ⟨cs', vs', hn', hf'⟩
+      · right
+        refine ⟨List.getElem?_eq_none (by omega), ?_⟩
+        simp [npExpand, List.getElem_append_right (Nat.le_of_not_lt hjk)]
+  · have hE : npExpandIdx key shape.length = npExpand a (some b) shape.length := by
+      unfold npExpandIdx; rw [hs]
+    rw [hE] at hv hlenv ⊢
+    rw [hx] at hl
+    subst he
+    obtain ⟨⟨cs, vs, hn, hf⟩, hmaps⟩ := C02_e2e_grid_ellipsis ty shape vals maps pre a b hw hm hwm hpl ha hb hl hv
+    refine ⟨⟨cs, vs, hn, hf, ?_⟩, ?_⟩
+    · obtain ⟨cs', vs', hn', hf'⟩ := C02_e2e_array_ellipsis ty shape vals pre a b hw hpl ha hb hl hv
+      rw [hn] at hn'; cases hn'
+      rw [E2E.fetchGrid_off, hf']
+    · intro j hj
+      have hjm : j < maps.length := by omega
+      have hjE : j < (npExpand a (some b) shape.length).length := by rw [hlenv.2]; exact hj
+      obtain ⟨cs', vs', hn', hf'⟩ := hmaps j hj
+      exact ⟨shape[j], maps[j], (padPre pre shape.length)[j]'(by omega), (npExpand a (some b) shape.length)[j],
+        List.getElem?_eq_getElem hj, List.getElem?_eq_getElem hjm, List.getElem?_eq_getElem (by omega),
+        List.getElem?_eq_getElem hjE, Or.inl ⟨cs', vs', hn', hf'⟩⟩
+
+/-- both branches of the per-axis alternative occur: `g[1]` on the 2×3 example grid fetches map 0 and leaves map 1
+    (entry 1 of numpy's expansion is the full slice; the result has 2 children, so child 2 is absent) -/
+example : npExpandIdx [Idx.int 1] 2 = [Idx.int 1, Idx.sl PSlice.all] ∧ AtMostOneEll [Idx.int 1] ∧
+    explicitAxes [Idx.int 1] = 1 := by
+  refine ⟨rfl, ?_, rfl⟩
+  intro b hb; simp [splitEll] at hb
+
 /-- non-vacuity of the composed statement: `x[..., -1]` and `x[1]` and `x[0, ..., ::2]` are basic indices; two
     Ellipses are not; numpy's expansion on rank 3 -/
 example : AtMostOneEll [Idx.ell, Idx.int (-1)] ∧ AtMostOneEll [Idx.int 1] ∧
